@@ -162,8 +162,10 @@ def run(ctx):
         runs = [{"Combs": LISTS, "NF": 3, "MaxSlots": 3, "BPre": '{"none"}'},
                 {"Combs": TIMED, "NF": 3, "MaxSlots": 3, "Deadlines": "{0, 1, 2, 3}", "MaxAdvance": 3},
                 # four distinct inputs (no duplicates) for the list-shaped combinators
-                {"Combs": '{"multi", "wait", "tmulti"}', "NF": 4, "MaxSlots": 4, "Dups": "FALSE", "Deadlines": "{1}",
-                 "MaxAdvance": 1, "BPre": '{"none"}', "_only4": True}]
+                {"Combs": '{"multi", "wait"}', "NF": 4, "MaxSlots": 4, "Dups": "FALSE", "Outcomes": '{"ok", "exc"}',
+                 "BPre": '{"none"}', "_only4": True},
+                {"Combs": '{"multi", "tmulti"}', "NF": 4, "MaxSlots": 4, "Dups": "FALSE", "Outcomes": '{"ok", "cancel"}',
+                 "Deadlines": "{1}", "MaxAdvance": 1, "BPre": '{"none"}', "_only4": True}]
     for ov in runs:
         ov = dict(ov)
         only4 = ov.pop("_only4", False)
@@ -178,6 +180,12 @@ def run(ctx):
     jobs = [(i + 1, ctx.seed * 1000003 + i) for i in range(n)]
     traces = framework.pool_map(random_trace, jobs)
     ctx.validate("futures", "Trace_Combinators", "Trace_Combinators.cfg", traces, sig_fn=_trace_sig)
+
+    def corrupt(ev):
+        o = ev["obs"]["out"]
+        ev["obs"]["out"] = {"s": "ok", "v": [4242], "e": ""} if o["s"] != "ok" else {"s": "pending", "v": [], "e": ""}
+    futures_gen.binding_demo(ctx, "futures", "Trace_Combinators", "Trace_Combinators.cfg",
+                             [t for t in traces if t["cfg"]["comb"] in ("multi", "multid", "timeout", "chain")], corrupt)
     ctx.cov["rule"] = ("paths: every complete behaviour (resolve/fail/cancel each input in every order, create at every "
                        "point, next() calls, clock advances, cancel of the output) of every combinator over every "
                        "canonical assignment of <= 3 futures to <= 3 positions incl. duplicates (thorough: also 4 distinct "
